@@ -226,6 +226,18 @@ def run(cx: Cx):
             if present and e.data.get('store') == 'append' and strip_versions(e.data.get('target')) == Sub(pools, tkey) \
                     and e.data.get('args') == (comp,):
                 ok = True
+            # new pool created empty and filled at once: pools[type(c)] = []; <that list>.append(c)
+            if absent and e.data.get('store') == 'setitem' and strip_versions(e.data.get('target')) == pools and \
+                    e.data.get('key') == tkey and isinstance(v, Fresh) and v.kind == 'list' and not v.items:
+                later = [x for x in p.events[p.events.index(e) + 1:] if x.kind == 'store' and
+                         strip_versions(x.data.get('target')) in (v, Sub(pools, tkey))]
+                ok = len(later) == 1 and later[0].data.get('store') == 'append' and later[0].data.get('args') == (comp,)
+        elif len(st) == 2 and absent:
+            e, e2 = st
+            v = e.data.get('value')
+            ok = e.data.get('store') == 'setitem' and strip_versions(e.data.get('target')) == pools and e.data.get('key') == tkey and \
+                isinstance(v, Fresh) and v.kind == 'list' and not v.items and e2.data.get('store') == 'append' and \
+                strip_versions(e2.data.get('target')) in (v, Sub(pools, tkey)) and e2.data.get('args') == (comp,)
         if ok:
             cx.ok('R-DISC', f"register_component: {'new pool [c]' if absent else 'tail append'} keyed by type(component)",
                   where=cx.where(reg, st[0].line), function=reg.qualname)
